@@ -252,22 +252,85 @@ func c19(r *engine.Report, p *engine.Program) {
 
 	// R3 refusal before storage
 	{
-		scans := secretScans(aru)
 		var alloc ssa.Instruction
 		for _, ci := range callsTo(aru, "(*workceptor.Workceptor).AllocateUnit") {
 			alloc = ci
 		}
-		ok := len(scans) == 1 && alloc != nil
+		// the name test: inline in AllocateRemoteUnit, or in a bool helper it calls with params
+		var tE []engine.Edge
+		var testInstr ssa.Instruction
+		scannedParams := false
+		nTests := 0
 		why := "AllocateRemoteUnit no longer tests parameter names with ToLower+HasPrefix(\"secret_\") before allocating"
-		if ok {
+		if scans := secretScans(aru); len(scans) == 1 {
+			nTests = 1
 			sc := scans[0]
-			if !isParamValue(sc.ranged, aru.Params[6]) {
+			testInstr = sc.call
+			scannedParams = isParamValue(sc.ranged, aru.Params[6])
+			tE, _ = engine.CondEdges(aru, func(c ssa.Value) (bool, bool) { return c == ssa.Value(sc.call), true })
+		} else {
+			for _, ci := range engine.CallsIn(aru) {
+				call, isCall := ci.(*ssa.Call)
+				callee := ci.Common().StaticCallee()
+				if !isCall || callee == nil || !inPkg(callee, "workceptor") || callee.Signature.Results().Len() != 1 || callee.Signature.Results().At(0).Type().String() != "bool" {
+					continue
+				}
+				hs := secretScans(callee)
+				if len(hs) != 1 {
+					continue
+				}
+				// helper correctness: true is returned only on the test's true edge, and always from it
+				hT, _ := engine.CondEdges(callee, func(c ssa.Value) (bool, bool) { return c == ssa.Value(hs[0].call), true })
+				okHelper := len(hT) > 0
+				isTrueRet := func(in ssa.Instruction) bool {
+					ret, isR := in.(*ssa.Return)
+					if !isR {
+						return false
+					}
+					k, isC := ret.Results[0].(*ssa.Const)
+					return isC && k.Value != nil && k.Value.String() == "true"
+				}
+				isFalseRet := func(in ssa.Instruction) bool {
+					ret, isR := in.(*ssa.Return)
+					if !isR {
+						return false
+					}
+					k, isC := ret.Results[0].(*ssa.Const)
+					return !isC || k.Value == nil || k.Value.String() != "true"
+				}
+				if engine.Reach(callee, nil, engine.EdgeSet{}.Add(hT...), nil, isTrueRet) != nil {
+					okHelper = false
+				}
+				for _, e := range hT {
+					if reachFromEdge(callee, e, nil, nil, isFalseRet) != nil {
+						okHelper = false
+					}
+				}
+				// the scanned map is the helper's parameter that receives params
+				pIdx := -1
+				for i, prm := range callee.Params {
+					if hs[0].ranged == ssa.Value(prm) {
+						pIdx = i
+					}
+				}
+				if !okHelper || pIdx < 0 {
+					why = "the helper " + engine.FuncName(callee) + " does not return true exactly when some name matches the secret test"
+					continue
+				}
+				nTests++
+				testInstr = call
+				scannedParams = isParamValue(call.Common().Args[pIdx], aru.Params[6])
+				tE, _ = engine.CondEdges(aru, func(c ssa.Value) (bool, bool) { return c == ssa.Value(call), true })
+			}
+		}
+		ok := nTests == 1 && alloc != nil
+		if ok {
+			if !scannedParams {
 				ok = false
 				why = "the names tested are not the submitted params"
 			}
 			tlsClient := aru.Params[3]
 			_, tlsSet := strEqEdges(aru, func(v ssa.Value) bool { return isParamValue(v, tlsClient) }, "")
-			tE, _ := engine.CondEdges(aru, func(c ssa.Value) (bool, bool) { return c == ssa.Value(sc.call), true })
 			if len(tE) == 0 {
 				ok = false
 				why = "the result of the secret test does not decide a branch: whether the submission is refused depends on which parameter name happens to be visited last"
@@ -290,27 +353,26 @@ func c19(r *engine.Report, p *engine.Program) {
 				ok = false
 				why = "tlsClient is not tested against the empty string"
 			}
-			// the scan precedes the allocation
-			if engine.Reach(aru, nil, nil, func(in ssa.Instruction) bool { return in == ssa.Instruction(sc.call) }, func(in ssa.Instruction) bool { return in == alloc }) != nil && len(aru.Params) > 0 {
-				// allowed only when params is empty (range body never runs): the range instruction itself must dominate
-				var rg ssa.Instruction
-				for _, b := range aru.Blocks {
-					for _, in := range b.Instrs {
-						if x, isR := in.(*ssa.Range); isR && x.X == sc.ranged {
-							rg = x
-						}
+			// the test precedes the allocation on every path that can run it: the allocation is not
+			// reachable from entry without passing the range/helper call (an empty params map skips the loop body,
+			// so the barrier is the Range instruction or the helper call)
+			var gate ssa.Instruction = testInstr
+			for _, b := range aru.Blocks {
+				for _, in := range b.Instrs {
+					if x, isR := in.(*ssa.Range); isR && isParamValue(x.X, aru.Params[6]) {
+						gate = x
 					}
 				}
-				if rg == nil || engine.Reach(aru, nil, nil, func(in ssa.Instruction) bool { return in == rg }, func(in ssa.Instruction) bool { return in == alloc }) != nil {
-					ok = false
-					why = "the unit can be allocated before the parameter names were scanned"
-				}
+			}
+			if engine.Reach(aru, nil, nil, func(in ssa.Instruction) bool { return in == gate }, func(in ssa.Instruction) bool { return in == alloc }) != nil {
+				ok = false
+				why = "the unit can be allocated before the parameter names were scanned"
 			}
 		}
 		r.Check("R3-refusal-first", "AllocateRemoteUnit: secret parameter without TLS is refused before anything is stored", aru.Pos(), ok,
 			"from the edge on which a name matches, assuming tlsClient == \"\", neither AllocateUnit nor any status write is reachable; the scan precedes the allocation", why)
 		// same normaliser on both sides (P9)
-		both := len(secretScans(aru)) == 1 && len(secretScans(rst)) == 1
+		both := nTests == 1 && len(secretScans(rst)) == 1
 		r.Check("R2-redaction", "admission test and redaction use the same normaliser", aru.Pos(), both, "both sides use strings.HasPrefix(strings.ToLower(name), \"secret_\")", "admission and redaction no longer use the same name test")
 	}
 	// R4 who ranges over RemoteParams
